@@ -19,9 +19,9 @@ PROOFS = {
     "C11": dict(coq=["theories/Prop_C11.v"], full=True, missing=""),
     "C12": dict(coq=["theories/Prop_C12.v"], full=True, missing=""),
     "C13": dict(coq=["theories/Prop_C13.v"], full=True, missing=""),
-    "C15": dict(coq=["theories/Prop_C15.v"], full=False,
-                missing="Classification/timing rule proved for every number of sides and moods; the per-history counting "
-                        "(one record per retirement) is pending (UsageCount)."),
+    "C15": dict(coq=["theories/Prop_C15.v"], full=True,
+                missing="(usage effect of a close re-sent on a fresh connection -- a transient mailbox created and retired "
+                        "inside the command -- is characterised for the channel database (Prop_C08) but not for the usage tables)"),
     "C16": dict(coq=["theories/Prop_C16.v"], full=True, missing=""),
     "C17": dict(coq=["theories/Prop_C17.v"], full=True, missing=""),
     "C18": dict(coq=["theories/Prop_C18.v"], full=True, missing=""),
